@@ -52,22 +52,35 @@ Proof.
       rewrite Nat2Z.inj_succ. lia.
 Qed.
 
+Lemma enc_ac_len l bits : enc_ac ac mcb l = Some bits -> Z.of_nat (length bits) <= 31 * Z.of_nat (length l) + 16.
+Proof.
+  unfold enc_ac. intros He. destruct (enc_band ac mcb l 0) as [[bb r]|] eqn:Eb; [|discriminate].
+  pose proof (enc_band_len l 0 bb r (Z.le_refl 0) Eb) as Hbb.
+  destruct (r >? 0).
+  - destruct (c_enc ac 0) as [e|] eqn:Ee; [|discriminate]. injection He as <-. pose proof (ac_len _ _ Ee).
+    rewrite app_length, Nat2Z.inj_add. lia.
+  - injection He as <-. lia.
+Qed.
+
+Lemma enc_dc_len d bits : enc_dc_diff dc mcb d 1 = Some bits -> Z.of_nat (length bits) <= 32.
+Proof.
+  unfold enc_dc_diff. intros He. destruct (nbits (Z.abs d) >? mcb + 1) eqn:En; [discriminate|].
+  rewrite Z.gtb_ltb in En. apply Z.ltb_ge in En.
+  destruct (c_enc dc (nbits (Z.abs d))) as [c|] eqn:Ec; [|discriminate]. injection He as <-.
+  pose proof (dc_len _ _ Ec). pose proof (nbits_nonneg (Z.abs d)).
+  rewrite app_length. unfold mag_bits. rewrite length_bits_of, Nat2Z.inj_add, Z2Nat.id by lia. lia.
+Qed.
+
 (* jchuff.c encode_one_block: at most 2048 bits = BUFSIZE / 2 data bytes, BUFSIZE bytes with stuffing *)
 Theorem block_fits_bufsize last_dc b bits : length b = 64%nat ->
   enc_block dc ac mcb last_dc b = Some bits -> Z.of_nat (length bits) <= 2048.
 Proof.
-  intros Hb He. unfold enc_block, enc_dc_diff, enc_ac in He.
-  destruct (nbits (Z.abs (nth 0%nat b 0 - last_dc)) >? mcb + 1) eqn:En; [discriminate|].
-  rewrite Z.gtb_ltb in En. apply Z.ltb_ge in En.
-  destruct (c_enc dc (nbits (Z.abs (nth 0%nat b 0 - last_dc)))) as [c|] eqn:Ec; [|discriminate].
-  destruct (enc_band ac mcb (skipn 1 (zz_of b)) 0) as [[bb r]|] eqn:Eb; [|discriminate].
-  pose proof (enc_band_len _ 0 bb r ltac:(lia) Eb) as Hbb. rewrite skipn_length, zz_of_length in Hbb.
-  change (Z.of_nat (64 - 1)) with 63 in Hbb. clear Eb.
-  pose proof (dc_len _ _ Ec) as Hc. pose proof (nbits_nonneg (Z.abs (nth 0%nat b 0 - last_dc))) as Hn0.
-  destruct (r >? 0).
-  - destruct (c_enc ac 0) as [e|] eqn:Ee; [|discriminate]. injection He as <-. pose proof (ac_len _ _ Ee).
-    rewrite !app_length. unfold mag_bits. rewrite length_bits_of. rewrite !Nat2Z.inj_add, Z2Nat.id by lia. lia.
-  - injection He as <-. rewrite !app_length. unfold mag_bits. rewrite length_bits_of. rewrite !Nat2Z.inj_add, Z2Nat.id by lia. lia.
+  intros Hb He. unfold enc_block in He.
+  destruct (enc_dc_diff dc mcb (nth 0%nat b 0 - last_dc) 1) as [d|] eqn:Ed; [|discriminate].
+  destruct (enc_ac ac mcb (skipn 1 (zz_of b))) as [a|] eqn:Ea; [|discriminate]. injection He as <-.
+  pose proof (enc_dc_len _ _ Ed) as H1. pose proof (enc_ac_len _ _ Ea) as H2.
+  rewrite skipn_length, zz_of_length in H2. change (Z.of_nat (64 - 1)) with 63 in H2.
+  rewrite app_length, Nat2Z.inj_add. lia.
 Qed.
 End Size.
 
